@@ -174,7 +174,7 @@ static void routing_phase(int G, int k, bool ortho, int params = 0) {
         static Sig cbase, ct; plain([&](Sig &s) { route_scene(sc, eps, ortho, 0, 0, 0, s, true); }, cbase);
         // cost invariance under the symmetries is claimed for independent connectors; crossing / shared-path penalties couple the connectors of a
         // scene and which of two equally good candidates is rerouted is (legitimately) decided by connector ids
-        for (int sk = 1; sk < 8 && params != 3 && params < 4; sk++) {   // (direction-restricted ends: only the single-connector form below) plain([&](Sig &s) { route_scene(sc, eps, ortho, sk, 0, 0, s, true); }, ct); ctx.count("transitions");
+        for (int sk = 1; sk < 8 && params != 3 && params < 4; sk++) {   /* (direction-restricted ends: only the single-connector form below) */ plain([&](Sig &s) { route_scene(sc, eps, ortho, sk, 0, 0, s, true); }, ct); ctx.count("transitions");
             if (!cbase.aborted && !ct.aborted) for (int i = 0; i < cbase.n; i++) if (!(fabs(cbase.v[i] - ct.v[i]) <= 1e-9)) {
                 // class: the connector shares an endpoint POSITION with another connector of the scene (coincident endpoint vertices of different
                 // connectors: which of them a visibility edge is attached to depends on the scan order, and the search skips foreign endpoints)
